@@ -413,3 +413,16 @@ def gen_probe(rng, rep, cfg, kind):
         op['stub'] = rng.choice(['first', 'last', 'random'])
         op['stub_seed'] = rng.randint(0, 10 ** 6)
     return op
+
+
+def gen_probe_conf(rng, rep, cfg):
+    ids = rep.m.instants()
+    if not ids:
+        return None
+    start = rng.choice(ids + [ids[0] - 1, ids[-1] + 1])
+    x = rng.random()
+    labels = ['x'] if x < 0.4 else rng.choice([['x', 'y'], ['x', 'y', 'x'], ['x', 'y', 'z'], ['y', 'x', 'x', 'x']])
+    return {'op': 'probe_conf', 'start': start, 'delta': rng.randint(0, 4),
+            'alphas': rng.choice([[1], [2], [0.5, 1], [1, 3]]), 'labels': labels,
+            'path_type': rng.choice(['shortest', 'fastest', 'foremost', 'fastest_shortest', 'shortest_fastest']),
+            'sliding': rng.random() < 0.3}
